@@ -25,6 +25,7 @@ type thread struct {
 	vc      vclock
 	name    string
 	savedFrame *frame
+	pending    []interface{} // synchronisation objects of the operation this thread is about to perform
 }
 
 type vclock []int
@@ -158,7 +159,8 @@ func (i *interpreter) spawn(fn value, args []value, pos token.Pos) {
 		}()
 		call(i, nil, pos, fn, args)
 	}()
-	i.yield("go statement")
+	// no scheduling choice here: the child can first run at the parent's next visible operation,
+	// which is equivalent (the parent's code in between is thread-local or reported as a race)
 }
 
 func tick(v vclock, id int) vclock {
@@ -202,11 +204,17 @@ func (i *interpreter) choose(n int) int {
 }
 
 // yield is a visible operation: any runnable thread may run next.
-func (i *interpreter) yield(what string) {
+// yield is a visible (acquiring) operation on the synchronisation objects objs: any runnable
+// thread may run next. Sleep sets (Godefroid) prune schedules that only reorder independent
+// operations: a thread passed over at a decision stays asleep until an operation on one of
+// its pending objects has been executed. objs == nil means "unknown": never put to sleep.
+func (i *interpreter) yield(what string, objs ...interface{}) {
 	if !i.threaded() {
 		return
 	}
 	me := i.cur
+	me.pending = objs
+	me.what = what
 	var run []*thread
 	for _, t := range i.threads {
 		if t.runnable() {
@@ -223,8 +231,57 @@ func (i *interpreter) yield(what string) {
 			break
 		}
 	}
-	next := run[i.choose(len(run))]
+	next := i.pick(run)
 	i.switchTo(me, next)
+	i.wake(objs)
+}
+
+// pick makes the scheduling decision among the candidates that are not asleep.
+func (i *interpreter) pick(run []*thread) *thread {
+	p := i.p
+	var cands []*thread
+	for _, t := range run {
+		if _, asleep := p.sleep[t.id]; !asleep {
+			cands = append(cands, t)
+		}
+	}
+	if len(cands) == 0 {
+		// every runnable thread is asleep: this schedule is a reordering of independent
+		// operations of one already explored
+		i.abort(abPruned, "schedule pruned by sleep set")
+	}
+	k := i.choose(len(cands))
+	for j := 0; j < k; j++ {
+		if cands[j].pending != nil {
+			if p.sleep == nil {
+				p.sleep = map[int][]interface{}{}
+			}
+			p.sleep[cands[j].id] = cands[j].pending
+		}
+	}
+	return cands[k]
+}
+
+// wake removes from the sleep set every thread whose pending operation depends on (shares a
+// synchronisation object with) the operation being executed.
+func (i *interpreter) wake(objs []interface{}) {
+	p := i.p
+	if len(p.sleep) == 0 {
+		return
+	}
+	for id, pend := range p.sleep {
+		dep := objs == nil
+		for _, a := range pend {
+			for _, b := range objs {
+				if a == b {
+					dep = true
+				}
+			}
+		}
+		if dep {
+			delete(p.sleep, id)
+		}
+	}
 }
 
 func (i *interpreter) switchTo(me, next *thread) {
@@ -265,7 +322,7 @@ func (i *interpreter) block(what string, cond func() bool) {
 			me.blocked = nil
 			i.deadlock()
 		}
-		next := run[i.choose(len(run))]
+		next := i.pick(run)
 		i.switchTo(me, next)
 		me.blocked = nil
 	}
@@ -282,7 +339,7 @@ func (i *interpreter) exitThread(t *thread) {
 		// every other thread is blocked forever: report as deadlock through the main thread
 		panic(pathAbort{abDeadlock, i.deadlockMsg()})
 	}
-	next := run[i.choose(len(run))]
+	next := i.pick(run)
 	i.cur = next
 	next.baton <- struct{}{}
 }
@@ -406,7 +463,17 @@ func chanSend(i *interpreter, ch *channel, v value) {
 	if ch == nil {
 		i.block("send on nil channel", func() bool { return false })
 	}
-	i.yield("chan send")
+	if ch.capacity > 0 && len(ch.buf) < ch.capacity && !ch.closed {
+		// a send that cannot block is a releasing operation: no scheduling choice before it
+		// (see mutexUnlock); it still wakes sleepers that depend on this channel
+		i.acqRel(&ch.vc)
+		ch.buf = append(ch.buf, v)
+		if i.threaded() {
+			i.wake([]interface{}{ch})
+		}
+		return
+	}
+	i.yield("chan send", ch)
 	if ch.closed {
 		panic(runtimeError("send on closed channel"))
 	}
@@ -471,7 +538,7 @@ func chanRecv(i *interpreter, ch *channel) (value, bool) {
 	if ch == nil {
 		i.block("receive on nil channel", func() bool { return false })
 	}
-	i.yield("chan receive")
+	i.yield("chan receive", ch)
 	i.block("chan receive", func() bool { return chanReady(ch) })
 	return chanTake(i, ch)
 }
@@ -483,7 +550,7 @@ func chanClose(i *interpreter, ch *channel) {
 	if ch.closed {
 		panic(runtimeError("close of closed channel"))
 	}
-	i.yield("chan close")
+	i.yield("chan close", ch)
 	i.release(&ch.vc)
 	ch.closed = true
 }
@@ -503,7 +570,13 @@ func chanCanSend(ch *channel) bool {
 
 func doSelect(fr *frame, instr *ssa.Select) value {
 	i := fr.i
-	i.yield("select")
+	var selObjs []interface{}
+	for _, s := range instr.States {
+		if ch, _ := fr.get(s.Chan).(*channel); ch != nil {
+			selObjs = append(selObjs, ch)
+		}
+	}
+	i.yield("select", selObjs...)
 	type st struct {
 		ch   *channel
 		send bool
